@@ -41,13 +41,14 @@ CLAIMED = {
     "C06": _c("UniChan (TLA+, implementation shaped, one action per scheduling point) contains the graceful-close protocol itself -- gracefully_end_all_streams (flush loop: pending count, wake every stream, sleep; cancel_all_streams; "
               "wait until the running-streams count is zero), is_channel_open / running_streams_count, and the drop of a stream (report_stream_dropped + the rebuild of the used-streams list) -- next to send / poll_next / waker registration: "
               "TLC checks InvCloseWaits / InvClosedAfterwards on every reachable state of small configurations and every transition of the state graph is replayed into the real movable atomic Uni channel under the deterministic scheduler, "
-              "each replay validated operation by operation against UniChan (Trace_UniChan) and judged by the L1 close verdicts of Trace_AbsUni; the same close / flush loops of all eleven real channel kinds are explored under the scheduler "
+              "each replay validated operation by operation against UniChan (Trace_UniChan) and judged by the L1 close verdicts of Trace_AbsUni; MultiChan carries the same protocol for the Arc-based atomic Multi channel "
+              "(pending count = the longest of the listed listeners' rings), checked and replayed the same way (Trace_MultiChan / Trace_AbsMulti); the same close / flush loops of all eleven real channel kinds are explored under the scheduler "
               "(preemption-bounded DFS + random schedules) against the L1 verdicts of Trace_AbsUni / Trace_AbsMulti. "
               "CloseProto (TLA+): the graceful-close protocol against a futures executor with a concurrency limit, checked by TLC for limit 1, limit >= 2 (counterexample = the recorded finding) and the candidate repair; "
               "the real Uni / Multi over every channel kind, all executor kinds, limits 1..4, 0..3 events buffered or in flight inside *gated* item futures (no timing dependence), close(Duration::ZERO) on a paused-clock "
               "current-thread runtime and on the multi-thread runtime; the logged life-cycle events are validated by TLC against Trace_AbsExecutor (close returns only after every accepted event was processed; afterwards "
               "no stream, channel closed, later sends not delivered).",
-              "7 (C06), 8 (D3)", "TLA+ models UniChan (close protocol, exhaustive + transition cover replayed into the real channel) and CloseProto checked by TLC; TLC trace validation of deterministic-scheduler executions against Trace_UniChan / Trace_AbsUni / Trace_AbsMulti and of gated tokio executions of the real Uni / Multi against Trace_AbsExecutor"),
+              "7 (C06), 8 (D3)", "TLA+ models UniChan and MultiChan (close protocol, exhaustive + transition covers replayed into the real movable atomic Uni / Arc atomic Multi channels) and CloseProto checked by TLC; TLC trace validation of deterministic-scheduler executions against Trace_UniChan / Trace_AbsUni / Trace_AbsMulti and of gated tokio executions of the real Uni / Multi against Trace_AbsExecutor"),
     "C07": _c("MultiChan (TLA+, implementation shaped: one AtomicMove ring per listener + the fan-out loop over the live-listener list + create_stream_id / drop_resources / report_stream_dropped / the in-place list rebuild + wake / waker registration / cancel + the executor tasks, one action per scheduling point) is checked exhaustively by TLC, and every transition of its state graph (small configurations) is replayed into the real Arc-based atomic Multi channel, each replay validated scheduling point by scheduling point against MultiChan (Trace_MultiChan) and judged by the L1 oracle. "
               "cancel_all_streams issued at every point of the streams' poll steps (before the first poll, between consume and waker registration, while parked, with events buffered), with a concurrent sender, "
               "streams dropped and ids reused, on all Uni and Multi channel kinds with 1..3 streams, from " + DET + "; TLC judges every history (a cancelled stream yields only what is buffered and ends; none stays parked; "
